@@ -130,7 +130,7 @@ func rsaCandidates(t *rapid.T, pk poolKey, raw []byte) []cand {
 	one := big.NewInt(1)
 	out := []cand{
 		{"rsa-s+N", fill(new(big.Int).Add(s, n))},
-		{"rsa-s+N-widened", cat([]byte{0}, fill(new(big.Int).Add(s, n)))[:k+1]},
+		{"rsa-s+N-widened", new(big.Int).Add(s, n).FillBytes(make([]byte, k+1))},
 		{"rsa-s=0", make([]byte, k)},
 		{"rsa-s=1", fill(one)},
 		{"rsa-s=N-1", fill(new(big.Int).Sub(n, one))},
